@@ -628,7 +628,7 @@ Ltac noerr_step :=
   | |- noerr ?m => let h := head_of m in unfold h
   end.
 
-Lemma noerr_rollback_meta d : noerr (rollback_meta d).
+Lemma noerr_rollback_meta cx d : noerr (rollback_meta cx d).
 Proof. unfold rollback_meta. repeat noerr_step. Qed.
 
 Lemma refund_order_err oid s e s' : refund_order oid s = Err e s' -> s' = s.
@@ -640,7 +640,7 @@ Proof.
 Qed.
 
 (* the only way [cancel_order] fails: the refund fails; nothing is written *)
-Lemma cancel_order_err oid s e s' : cancel_order oid s = Err e s' ->
+Lemma cancel_order_err cx oid s e s' : cancel_order cx oid s = Err e s' ->
   e = "RefundOrder" /\ s' = s /\ exists e', refund_order oid s = Err e' s.
 Proof.
   unfold cancel_order. unfold bind at 1. change (get s) with (Ok s s). cbv iota beta zeta.
@@ -649,7 +649,7 @@ Proof.
   - pose proof (refund_order_err _ _ _ _ E) as Es. subst s1. intros H. inversion H; subst. eauto.
 Qed.
 
-Lemma cancel_order_ok oid s s' : cancel_order oid s = Ok tt s' -> orders s' !! oid = None.
+Lemma cancel_order_ok cx oid s s' : cancel_order cx oid s = Ok tt s' -> orders s' !! oid = None.
 Proof.
   unfold cancel_order. intros H.
   apply bind_ok in H. destruct H as (s0 & s0' & Hget & H). inversion Hget; subst s0' s0; clear Hget.
